@@ -679,22 +679,220 @@ Proof.
   rewrite <- H. destruct (pos_ltb x b); auto.
 Qed.
 
-(* has_ignore_comment only grows with the range *)
+(* ------------------------------------------------------------------------------------------ *)
+(* core.has_ignore_comment and the range (after the repairs a37c022 / 8992e08 / 776bcb9) *)
+
 Lemma overlaps_mono :
   forall a b a' b' l, a' <= a -> b <= b' -> overlaps (a, b) l = true -> overlaps (a', b') l = true.
 Proof.
   intros a b a' b' [l1 l2] H1 H2. unfold overlaps. simpl. rewrite !andb_true_iff, !Z.ltb_lt. lia.
 Qed.
 
-Theorem has_ignore_mono :
-  forall s a b a' b', a' <= a -> b <= b' ->
-    has_ignore_comment s (a, b) = true -> has_ignore_comment s (a', b') = true.
+(* a range that is not an insertion touches a line -> so does every range around it (an insertion
+   strictly inside the line included: that is the case of an inverted inner range) *)
+Lemma touches_mono :
+  forall a b a' b' st e l, a <> b -> a' <= a -> b <= b' ->
+    touches_line (a, b) st e l = true -> touches_line (a', b') st e l = true.
 Proof.
-  intros s a b a' b' H1 H2. unfold has_ignore_comment. generalize 0.
+  intros a b a' b' st e l N H1 H2. unfold touches_line, overlaps. cbn [fst snd].
+  destruct (a =? b) eqn:E; [lia|]. destruct (a' =? b') eqn:E'; lia.
+Qed.
+
+(* the repaired recogniser only grows with the range, as long as the inner range is not an insertion *)
+Theorem has_ignore_mono :
+  forall s coms a b a' b', a <> b -> a' <= a -> b <= b' ->
+    has_ignore_comment s coms (a, b) = true -> has_ignore_comment s coms (a', b') = true.
+Proof.
+  intros s coms a b a' b' N H1 H2. unfold has_ignore_comment. generalize 0%nat, 0.
+  induction (tok_lines s) as [|l ls IH]; intros i st; cbn [has_ignore_from]; [auto|].
+  rewrite !orb_true_iff, !andb_true_iff. intros [[[O P] C]|R].
+  - left. split; [split|]; [|exact P|exact C]. eapply touches_mono; eauto.
+  - right. apply IH. exact R.
+Qed.
+
+(* the statement that held for the old recogniser (any inner range) is false now: in "x<LF># pyrefact: ignore"
+   the insertion at offset 2 (first column of the comment line [2, 20)) is refused, the range (0, 2)
+   that contains the point is not -- it ends where the line starts *)
+Theorem has_ignore_mono_any_refuted :
+  exists s coms a b a' b', a' <= a /\ b <= b'
+    /\ has_ignore_comment s coms (a, b) = true /\ has_ignore_comment s coms (a', b') = false.
+Proof.
+  exists [120; 10; 35; 32; 112; 121; 114; 101; 102; 97; 99; 116; 58; 32; 105; 103; 110; 111; 114; 101]%N,
+         (Some [1%nat]), 2, 2, 0, 2.
+  split; [lia|]. split; [lia|]. split; vm_compute; reflexivity.
+Qed.
+
+(* ... while the old recogniser (Range.overlaps for every range) was monotone without a guard *)
+Theorem has_ignore_v0_mono :
+  forall s a b a' b', a' <= a -> b <= b' ->
+    has_ignore_comment_v0 s (a, b) = true -> has_ignore_comment_v0 s (a', b') = true.
+Proof.
+  intros s a b a' b' H1 H2. unfold has_ignore_comment_v0. generalize 0.
   induction (str_lines s) as [|l ls IH]; intros st; simpl; [auto|].
   rewrite !orb_true_iff, !andb_true_iff. intros [[O P]|R].
   - left. split; [|exact P]. eapply overlaps_mono; eauto.
   - right. apply IH. exact R.
+Qed.
+
+(* the shape of core.split_lines(source): no empty line; every line but the last is terminated *)
+Fixpoint lines_wf (ls : list text) : Prop :=
+  match ls with
+  | [] => True
+  | l :: tl => l <> [] /\ (tl = [] \/ terminated l = true) /\ lines_wf tl
+  end.
+
+Lemma terminated_cons : forall c l, l <> [] -> terminated (c :: l) = terminated l.
+Proof. intros c [|d l] H; [contradiction|reflexivity]. Qed.
+
+Lemma tok_lines_wf : forall s, lines_wf (tok_lines s).
+Proof.
+  unfold tok_lines. induction s as [|c tl IH]; [exact Logic.I|].
+  cbn [lines]. destruct (line_end is_tok_nl c tl) eqn:E.
+  - cbn [lines_wf]. split; [discriminate|]. split; [|exact IH]. right.
+    unfold line_end in E. apply andb_true_iff in E. destruct E as [E _]. exact E.
+  - destruct (lines is_tok_nl tl) as [|l ls] eqn:L; [cbn; repeat split; [discriminate|auto]|].
+    cbn [lines_wf] in *. destruct IH as [NE [T W]]. split; [discriminate|]. split; [|exact W].
+    destruct T as [T|T]; [left; exact T|right]. rewrite terminated_cons; assumption.
+Qed.
+
+Lemma lines_concat : forall sep s, concat (lines sep s) = s.
+Proof.
+  intros sep. induction s as [|c tl IH]; [reflexivity|].
+  cbn [lines]. destruct (line_end sep c tl); [cbn; rewrite IH; reflexivity|].
+  destruct (lines sep tl) as [|l ls]; cbn in *; rewrite <- IH; reflexivity.
+Qed.
+
+Lemma len_pos_nonempty : forall (l : text), l <> [] -> 0 < len l.
+Proof. intros [|c l] H; [contradiction|]. rewrite len_cons. pose proof (len_nonneg _ l). lia. Qed.
+
+(* an insertion point that touches a line is also caught by every non-empty range that contains the
+   character at p -- or, at the end of the text (the end of an unterminated last line), the one before p *)
+Lemma ins_caught_from :
+  forall ls coms i st p a' b',
+    lines_wf ls -> a' <= p -> p <= b' -> a' < b' ->
+    (if p <? st + len (concat ls) then p <? b' else a' <? p) = true ->
+    has_ignore_from coms i st ls (p, p) = true -> has_ignore_from coms i st ls (a', b') = true.
+Proof.
+  induction ls as [|l tl IH]; intros coms i st p a' b' W H1 H2 H3 HC; cbn [has_ignore_from]; [auto|].
+  cbn [lines_wf] in W. destruct W as [NE [T W]]. pose proof (len_pos_nonempty l NE) as LP.
+  cbn [concat] in HC. rewrite len_app in HC. pose proof (len_nonneg _ (concat tl)) as LT.
+  rewrite !orb_true_iff, !andb_true_iff. intros [[[O P] C]|R].
+  - left. split; [split|]; [|exact P|exact C].
+    unfold touches_line, overlaps in *. cbn [fst snd] in *. rewrite Z.eqb_refl in O.
+    destruct (a' =? b') eqn:E'; [lia|].
+    apply orb_true_iff in O. destruct O as [O|O].
+    + destruct (p <? st + (len l + len (concat tl))) eqn:Q; lia.
+    + apply andb_true_iff in O. destruct O as [O1 O2]. apply negb_true_iff in O2.
+      destruct T as [T|T]; [|congruence]. subst tl. cbn [concat] in HC. rewrite len_nil in HC.
+      destruct (p <? st + (len l + 0)) eqn:Q; lia.
+  - right. apply (IH coms (S i) (st + len l) p a' b' W H1 H2 H3); [|exact R].
+    replace (st + len l + len (concat tl)) with (st + (len l + len (concat tl))) by lia. exact HC.
+Qed.
+
+Theorem has_ignore_insertion_caught :
+  forall s coms p a' b',
+    a' <= p -> p <= b' -> a' < b' ->
+    (if p <? len s then p <? b' else a' <? p) = true ->
+    has_ignore_comment s coms (p, p) = true -> has_ignore_comment s coms (a', b') = true.
+Proof.
+  intros s coms p a' b' H1 H2 H3 HC. unfold has_ignore_comment.
+  apply ins_caught_from; [apply tok_lines_wf|assumption..|].
+  unfold tok_lines. rewrite lines_concat. exact HC.
+Qed.
+
+(* exactly: an insertion before the character at p is refused iff a rewrite of that character is *)
+Lemma ins_char_from :
+  forall ls coms i st p, lines_wf ls -> p < st + len (concat ls) ->
+    has_ignore_from coms i st ls (p, p) = has_ignore_from coms i st ls (p, p + 1).
+Proof.
+  induction ls as [|l tl IH]; intros coms i st p W HP; cbn [has_ignore_from]; [reflexivity|].
+  cbn [lines_wf] in W. destruct W as [NE [T W]]. pose proof (len_pos_nonempty l NE) as LP.
+  cbn [concat] in HP. rewrite len_app in HP.
+  rewrite (IH coms (S i) (st + len l) p W) by lia. f_equal. f_equal. f_equal.
+  unfold touches_line, overlaps. cbn [fst snd]. rewrite Z.eqb_refl.
+  destruct (p =? p + 1) eqn:E; [lia|].
+  destruct T as [T|T].
+  - subst tl. cbn [concat] in HP. rewrite len_nil in HP.
+    destruct (p =? st + len l) eqn:Q; [lia|]. cbn [andb]. rewrite orb_false_r. lia.
+  - rewrite T. cbn [negb]. rewrite andb_false_r, orb_false_r. lia.
+Qed.
+
+Theorem has_ignore_insertion_is_char :
+  forall s coms p, p < len s ->
+    has_ignore_comment s coms (p, p) = has_ignore_comment s coms (p, p + 1).
+Proof.
+  intros s coms p HP. unfold has_ignore_comment. apply ins_char_from; [apply tok_lines_wf|].
+  unfold tok_lines. rewrite lines_concat. lia.
+Qed.
+
+(* no line is touched by an insertion beyond the end of the text *)
+Lemma ins_beyond_from :
+  forall ls coms i st p, st + len (concat ls) < p -> has_ignore_from coms i st ls (p, p) = false.
+Proof.
+  induction ls as [|l tl IH]; intros coms i st p HP; cbn [has_ignore_from]; [reflexivity|].
+  cbn [concat] in HP. rewrite len_app in HP. pose proof (len_nonneg _ (concat tl)).
+  rewrite IH by lia. rewrite orb_false_r.
+  unfold touches_line. cbn [fst snd]. rewrite Z.eqb_refl.
+  destruct (st <=? p) eqn:A, (p <? st + len l) eqn:B, (p =? st + len l) eqn:C; try lia; reflexivity.
+Qed.
+
+Theorem has_ignore_insertion_beyond :
+  forall s coms p, len s < p -> has_ignore_comment s coms (p, p) = false.
+Proof.
+  intros s coms p HP. unfold has_ignore_comment. apply ins_beyond_from.
+  unfold tok_lines. rewrite lines_concat. lia.
+Qed.
+
+Lemma terminated_app : forall a b, b <> [] -> terminated (a ++ b) = terminated b.
+Proof.
+  induction a as [|c a IH]; intros b H; [reflexivity|].
+  cbn [app]. rewrite terminated_cons; [apply IH; exact H|].
+  destruct a; [exact H|discriminate].
+Qed.
+
+(* at the end of the text: refused iff the text has no final line terminator and its last character is protected *)
+Lemma ins_eof_from :
+  forall ls coms i st, lines_wf ls ->
+    has_ignore_from coms i st ls (st + len (concat ls), st + len (concat ls))
+    = negb (terminated (concat ls))
+      && has_ignore_from coms i st ls (st + len (concat ls) - 1, st + len (concat ls)).
+Proof.
+  induction ls as [|l tl IH]; intros coms i st W; [reflexivity|].
+  cbn [lines_wf] in W. destruct W as [NE [_ W]]. pose proof (len_pos_nonempty l NE) as LP.
+  cbn [has_ignore_from concat]. rewrite len_app.
+  destruct tl as [|l2 tl2].
+  - cbn [concat has_ignore_from]. rewrite app_nil_r, len_nil, !orb_false_r.
+    unfold touches_line, overlaps. cbn [fst snd].
+    replace (st + (len l + 0)) with (st + len l) by lia. rewrite !Z.eqb_refl.
+    destruct (st + len l - 1 =? st + len l) eqn:E; [lia|].
+    replace (st + len l <? st + len l) with false by lia.
+    replace (st + len l - 1 <? st + len l) with true by lia.
+    replace (st <? st + len l) with true by lia.
+    rewrite andb_false_r. cbn [orb andb]. rewrite !andb_assoc. reflexivity.
+  - assert (NT : concat (l2 :: tl2) <> []).
+    { cbn [lines_wf] in W. destruct W as [N2 _]. cbn [concat]. destruct l2; [contradiction|discriminate]. }
+    pose proof (len_pos_nonempty _ NT) as LQ.
+    rewrite (terminated_app l _ NT).
+    replace (st + (len l + len (concat (l2 :: tl2)))) with (st + len l + len (concat (l2 :: tl2))) by lia.
+    rewrite (IH coms (S i) (st + len l) W).
+    set (p := st + len l + len (concat (l2 :: tl2))) in *.
+    assert (T1 : touches_line (p, p) st (st + len l) l = false).
+    { unfold touches_line. cbn [fst snd]. rewrite Z.eqb_refl.
+      destruct (st <=? p) eqn:A, (p <? st + len l) eqn:B, (p =? st + len l) eqn:C; try lia; reflexivity. }
+    assert (T2 : touches_line (p - 1, p) st (st + len l) l = false).
+    { unfold touches_line, overlaps. cbn [fst snd]. destruct (p - 1 =? p) eqn:E; [lia|].
+      destruct (p - 1 <? st + len l) eqn:A; [lia|reflexivity]. }
+    rewrite T1, T2. reflexivity.
+Qed.
+
+Theorem has_ignore_insertion_at_end :
+  forall s coms,
+    has_ignore_comment s coms (len s, len s)
+    = negb (terminated s) && has_ignore_comment s coms (len s - 1, len s).
+Proof.
+  intros s coms. unfold has_ignore_comment.
+  pose proof (ins_eof_from (tok_lines s) coms 0%nat 0 (tok_lines_wf s)) as H.
+  unfold tok_lines in *. rewrite lines_concat in H. exact H.
 Qed.
 
 (* ------------------------------------------------------------------------------------------ *)
